@@ -20,5 +20,6 @@ func TestWorker(t *testing.T) {
 		"C16": checkC16,
 		"C19": checkC19,
 		"C20": checkC20,
+		"C11": checkC11,
 	})
 }
